@@ -1,8 +1,8 @@
 #!/bin/bash
 export GOFLAGS=-mod=mod GOPROXY=off
-WT=/tmp/wtv9
+WT=${WTV:-/tmp/wtv9}
 rm -rf $WT; git -C /repo worktree prune; git -C /repo worktree add --detach $WT HEAD >/dev/null 2>&1
-for d in $(for x in "$@"; do echo /tmp/seeded9/$x; done); do
+for d in $(for x in "$@"; do echo ${SEEDDIR:-/tmp/seeded9}/$x; done); do
   id=$(basename $d)
   cd $WT && git checkout -q -- . && git clean -fdq
   if ! git apply --check $d/patch.diff 2>/dev/null; then echo "$id APPLY-FAIL"; continue; fi
